@@ -510,6 +510,10 @@ class wildcard_bin(object):
             WildcardBinspec(self.range_l))
         ret.srcinfo_decl = self.srcinfo_decl
         
+        if excluded_bins is not None and len(excluded_bins.range_l) > 0:
+            # Values named by ignore/illegal bins never hit this bin
+            ret.excluded = excluded_bins.clone()
+        
         return ret    
 
 class wildcard_bin_array(object):
@@ -585,17 +589,27 @@ class wildcard_bin_array(object):
     def build_cov_model(self, parent, name, excluded_bins):
         ret = None
         
+        range_l = self.range_l
+        if excluded_bins is not None and len(excluded_bins.range_l) > 0:
+            # Values named by ignore/illegal bins are removed before 
+            # the matching values are turned into bins
+            rl = RangelistModel(None)
+            for r in self.range_l:
+                rl.range_l.append([r[0], r[-1]])
+            rl.intersect(excluded_bins)
+            range_l = rl.range_l
+        
         # First, need to determine how many total bins
         # Construct a range model
         if self.nbins == -1:
             # unlimited number of bins
-            if len(self.range_l) == 1:
-                r = self.range_l[0]
+            if len(range_l) == 1:
+                r = range_l[0]
                 ret = CoverpointBinArrayModel(name, r[0], r[1])
             else:
                 idx=0
                 ret = CoverpointBinCollectionModel(name)
-                for r in self.range_l:
+                for r in range_l:
                     if len(r) == 2:
                         if r[0] != r[1]:
                             b = ret.add_bin(CoverpointBinArrayModel(name, r[0], r[1]))
@@ -616,7 +630,7 @@ class wildcard_bin_array(object):
                                         str(self.srcinfo_decl.lineno) + ")")
         else:
             ret = CoverpointBinCollectionModel.mk_collection(name, 
-                    RangelistModel(self.range_l), self.nbins)
+                    RangelistModel(range_l), self.nbins)
         
         ret.srcinfo_decl = self.srcinfo_decl
 
